@@ -253,7 +253,12 @@ func pkgName(p *types.Package) string {
 	}
 	if p.Name() == "main" {
 		if i := strings.LastIndex(p.Path(), "/"); i >= 0 {
-			return p.Path()[i+1:]
+			base := p.Path()[i+1:]
+			// cmd/<x> inside module .../<x>: avoid clashing with the module's root package name
+			if j := strings.Index(p.Path(), "/cmd/"); j > 0 && strings.HasSuffix(p.Path()[:j], "/"+base) {
+				return base + "-cmd"
+			}
+			return base
 		}
 		return p.Path()
 	}
